@@ -54,6 +54,7 @@ static long raw(long n, long a, long b, long c, long d, long e, long f)
 /* ---------------------------------------------------------------------------------------------- state */
 static int mode;             /* 0 passive, 't', 'p' */
 static int trace_fd = -1;
+static int policy;           /* 0: drain pipes before noticing exits (default); 1: eager reaping, highest pipe first */
 static int horizon = 200000; /* max recorded+unrecorded scheduling points */
 static long npoints_total;
 
@@ -265,6 +266,8 @@ __attribute__((constructor)) static void vsched_init(void)
             raw(SYS_close, fd, 0, 0, 0, 0, 0);
         }
     }
+    const char *po = getenv("VSCHED_POLICY");
+    if (po && *po) policy = atoi(po);
     const char *h = getenv("VSCHED_HORIZON");
     if (h && *h) horizon = atoi(h);
     parse_prefix(getenv("VSCHED_PREFIX"));
@@ -559,6 +562,8 @@ int select(int nfds, fd_set *rfds, fd_set *wfds, fd_set *efds, struct timeval *t
     for (int i = 0; i < nwk; i++)
         if (W[i].open && W[i].rfd < nfds && FD_ISSET(W[i].rfd, rfds)) idx[n++] = i;
     if (n == 0) return r_select(nfds, rfds, wfds, efds, tv);
+    if (policy == 1)
+        for (int i = 0; i < n / 2; i++) { int t = idx[i]; idx[i] = idx[n - 1 - i]; idx[n - 1 - i] = t; }
     /* alternatives: deliver idx[0..n-1], then "nothing ready yet" */
     char info[96]; int p = 0;
     for (int i = 0; i < n && p < 80; i++) p += snprintf(info + p, sizeof info - p, "w%d,", idx[i]);
@@ -584,12 +589,21 @@ pid_t waitpid(pid_t pid, int *st, int opts)
     }
     if (n == 0) return r_waitpid(pid, st, opts);
     char info[96]; int p = 0;
-    if (nopen) p += snprintf(info, sizeof info, "none,");
-    for (int i = 0; i < n && p < 80; i++) p += snprintf(info + p, sizeof info - p, "w%d,", idx[i]);
-    int c = choose('R', n + (nopen ? 1 : 0), 0, info);
-    if (nopen) {
-        if (c == 0) return 0;
-        c--;
+    int c;
+    if (policy == 1) {
+        /* eager: default = reap the lowest un-reaped worker (blocks until it has exited); last alternative: none yet */
+        for (int i = 0; i < n && p < 80; i++) p += snprintf(info + p, sizeof info - p, "w%d,", idx[i]);
+        if (nopen) snprintf(info + p, sizeof info - p, "none");
+        c = choose('R', n + (nopen ? 1 : 0), 0, info);
+        if (nopen && c == n) return 0;
+    } else {
+        if (nopen) p += snprintf(info, sizeof info, "none,");
+        for (int i = 0; i < n && p < 80; i++) p += snprintf(info + p, sizeof info - p, "w%d,", idx[i]);
+        c = choose('R', n + (nopen ? 1 : 0), 0, info);
+        if (nopen) {
+            if (c == 0) return 0;
+            c--;
+        }
     }
     int w = idx[c];
     pid_t r;
